@@ -1226,7 +1226,10 @@ func (s *Store) streamBackupDB(ctx context.Context, name string, remotePos ltx.P
 	}
 
 	// Compact LTX files through a pipe so we can pass it to the backup client.
+	// Close the read side on return so the compactor never blocks on a client
+	// that stopped reading (e.g. failed request).
 	pr, pw := io.Pipe()
+	defer func() { _ = pr.Close() }()
 	var pos ltx.Pos
 	go func() {
 		compactor := ltx.NewCompactor(pw, rdrs)
@@ -1267,7 +1270,11 @@ func (s *Store) streamBackupDBSnapshot(ctx context.Context, db *DB) (newPos ltx.
 	v.Store(ltx.Pos{})
 
 	// Run snapshot through a goroutine so we can pipe it to the backup writer.
+	// Close the read side on return: if the client fails without draining the
+	// pipe the snapshot writer would otherwise block forever while holding the
+	// database's read locks.
 	pr, pw := io.Pipe()
+	defer func() { _ = pr.Close() }()
 	go func() {
 		header, trailer, err := db.WriteSnapshotTo(ctx, pw)
 		v.Store(ltx.NewPos(header.MaxTXID, trailer.PostApplyChecksum))
